@@ -367,7 +367,7 @@ func c17Extra(state string) [][]string {
 }
 
 func checkC17(job *Job, res *Result) {
-	res.Rule = "SEQ over the command table: catalogue command x argument shape (+ 27 commands on names needing escaping) x state {empty, populated, escaping} on two identical servers in lockstep (RESP mode / JSON mode), plus telnet, native, HTTP and WebSocket transports; distinct = distinct (state, command, shape, reply class RESP, ok JSON)"
+	res.Rule = "SEQ over the command table: catalogue command x argument shape (+ 27 commands on names needing escaping) x state {empty, populated, escaping} on two identical servers in lockstep (RESP mode / JSON mode), plus telnet, native, HTTP and WebSocket transports; replies of 16 lengths at the boundaries of the WebSocket / native / HTTP length encodings; a server with JSON as its default output x 6 first commands (HELLO forms, COMMAND DOCS) x 7 follow-up commands; distinct = distinct (state, command, shape, reply class RESP, ok JSON)"
 	res.Assumptions = append(res.Assumptions, "RESP may answer nil / 0 / -2 / 'none' where JSON answers with a 'not found' error (documented convention)",
 		"commands that switch the connection to a stream (SUBSCRIBE, PSUBSCRIBE, MONITOR, AOF, FENCE searches) are checked for their first reply only")
 	repo, _ := job.Params["repo"].(string)
@@ -648,6 +648,281 @@ func checkC17(job *Job, res *Result) {
 			res.Violate("C17/hang:"+state, x.Err, map[string]any{"state": state})
 		}
 		res.States++
+	}
+	if job.Shard == 0 && job.Replay == nil {
+		c17Frames(job, res)
+		c17DefaultJSON(job, res)
+		c17Sequences(job, res)
+		c17Live(job, res)
+	}
+}
+
+// c17WSFrame parses exactly one unmasked text frame with a minimal length encoding (RFC 6455).
+func c17WSFrame(fr []byte) (payload []byte, ok bool) {
+	if len(fr) < 2 || fr[0] != 0x81 || fr[1]&0x80 != 0 {
+		return nil, false
+	}
+	switch n := int(fr[1] & 0x7f); {
+	case n < 126:
+		return fr[2:], len(fr) == 2+n
+	case n == 126:
+		if len(fr) < 4 {
+			return nil, false
+		}
+		l := int(binary.BigEndian.Uint16(fr[2:]))
+		return fr[4:], len(fr) == 4+l && l >= 126
+	default:
+		if len(fr) < 10 {
+			return nil, false
+		}
+		l := binary.BigEndian.Uint64(fr[2:])
+		return fr[10:], uint64(len(fr)) == 10+l && l > 0xFFFF
+	}
+}
+
+// c17Frames: replies whose length sits at every boundary of the transports'
+// length encodings (WebSocket 125/126, 65535/65536; native and HTTP decimal widths).
+func c17Frames(job *Job, res *Result) {
+	x := runExec(job, freezeAllBut(), func(x *Exec) {
+		in := x.Start("L", x.dir+"/L", 9001, nil)
+		ws := func(line string) ([]byte, string) {
+			wc := x.Dial(in.Addr)
+			wc.Send([]byte("GET /" + url.PathEscape(line) + " HTTP/1.1\r\nHost: x\r\nUpgrade: websocket\r\nConnection: Upgrade\r\nSec-WebSocket-Version: 13\r\nSec-WebSocket-Key: dGhlIHNhbXBsZSBub25jZQ==\r\n\r\n"))
+			vsched.WaitUntilOr(func() bool { return wc.c.EOF() }, int64(5*stdtime.Second))
+			vsched.Quiesce()
+			wb := wc.c.Drain()
+			wc.Close()
+			hi := bytes.Index(wb, []byte("\r\n\r\n"))
+			if !bytes.HasPrefix(wb, []byte("HTTP/1.1 101 ")) || hi < 0 {
+				return nil, "the upgrade request was answered " + vclip(string(wb), 120)
+			}
+			return wb[hi+4:], ""
+		}
+		base, problem := ws("ECHO b")
+		p0, ok := c17WSFrame(base)
+		if problem != "" || !ok {
+			res.Violate("C17/websocket-frame:boundary", "ECHO b: "+problem, nil)
+			return
+		}
+		for _, target := range []int{124, 125, 126, 127, 128, 129, 255, 256, 257, 999, 1000, 65534, 65535, 65536, 65537, 70000} {
+			pad := target - len(p0) + 1
+			if pad < 1 {
+				continue
+			}
+			arg := strings.Repeat("x", pad)
+			fr, problem := ws("ECHO " + arg)
+			payload, ok := c17WSFrame(fr)
+			res.Evaluations++
+			res.DistinctS(fmt.Sprint("frame", target))
+			switch {
+			case problem != "":
+				res.Violate("C17/websocket-frame:boundary", fmt.Sprintf("payload of %d bytes: %s", target, problem), map[string]any{"target": target})
+			case !ok:
+				res.Violate("C17/websocket-frame:boundary", fmt.Sprintf("a reply of %d bytes is not sent as exactly one well-formed unmasked text frame with a minimal length encoding: %d bytes after the handshake, first bytes % x", target, len(fr), fr[:min(len(fr), 12)]), map[string]any{"target": target})
+			case len(payload) != target:
+				res.Violate("C17/websocket-frame:boundary", fmt.Sprintf("expected a payload of %d bytes, got %d", target, len(payload)), map[string]any{"target": target})
+			default:
+				if _, p := jsonDoc(string(payload)); p != "" {
+					res.Violate("C17/websocket-json-malformed:boundary", p+": "+vclip(string(payload), 120), map[string]any{"target": target})
+				}
+			}
+			// native: "$<len> <json>\r\n" and HTTP Content-Length around the same sizes
+			nc := x.Dial(in.Addr)
+			line := "ECHO " + arg
+			nc.Send([]byte(fmt.Sprintf("$%d %s\r\n", len(line), line)))
+			vsched.WaitUntilOr(func() bool { return nc.c.Avail() > 0 || nc.c.EOF() }, int64(5*stdtime.Second))
+			vsched.Quiesce()
+			nb := string(nc.c.Drain())
+			nc.Close()
+			if i := strings.Index(nb, " "); !strings.HasPrefix(nb, "$") || !strings.HasSuffix(nb, "\r\n") || i < 0 || nb[1:i] != fmt.Sprint(len(nb)-i-3) {
+				res.Violate("C17/native-malformed:boundary", fmt.Sprintf("a reply of about %d bytes arrives as %s", target, vclip(nb, 60)), map[string]any{"target": target})
+			}
+		}
+		res.States++
+	})
+	if x.Err != "" {
+		res.Violate("C17/hang:frames", x.Err, nil)
+	}
+}
+
+// c17DefaultJSON: a server started with JSON as the default output (-o json).
+// Every RESP connection starts in JSON mode; a HELLO <n> refused in plain RESP
+// (redis clients insist on it) must not change the mode of what follows.
+func c17DefaultJSON(job *Job, res *Result) {
+	for _, first := range [][]string{nil, {"HELLO", "3"}, {"HELLO", "2", "AUTH", "a", "b"}, {"HELLO"}, {"COMMAND", "DOCS"}, {"PING"}} {
+		first := first
+		x := runExec(job, freezeAllBut(), func(x *Exec) {
+			in := x.Start("L", x.dir+"/L", 9001, func(o *Options) { o.ClientOutput = "json" })
+			c0 := x.Dial(in.Addr)
+			c0.Do("SET", "k1", "a", "FIELD", "f", "1", "POINT", "1", "2")
+			c := x.Dial(in.Addr)
+			if first != nil {
+				c.Do(first...)
+			}
+			for _, cmd := range [][]string{{"GET", "k1", "a"}, {"SCAN", "k1"}, {"GET", "nokey", "x"}, {"OUTPUT"}, {"NOSUCHCOMMAND"}, {"SET", "k1", "b", "POINT", "3", "4"}, {"TTL", "k1", "a"}} {
+				r := c.Do(cmd...)
+				res.Evaluations++
+				res.DistinctS(fmt.Sprint("defaultjson", first, cmd[0]))
+				if r.K != '$' {
+					res.Violate("C17/default-json-connection-left-json-mode", fmt.Sprintf("server started with JSON as the default output; after %v, %v is answered %s instead of one JSON document", first, cmd, vclip(r.String(), 120)), map[string]any{"first": first, "cmd": cmd})
+					continue
+				}
+				if _, p := jsonDoc(r.S); p != "" {
+					res.Violate("C17/default-json-malformed", fmt.Sprintf("after %v, %v: %s: %s", first, cmd, p, vclip(r.S, 120)), map[string]any{"first": first, "cmd": cmd})
+				}
+				if cmd[0] == "OUTPUT" && !strings.Contains(r.S, `"output":"json"`) {
+					res.Violate("C17/default-json-connection-left-json-mode", fmt.Sprintf("after %v, OUTPUT reports %s", first, vclip(r.S, 120)), map[string]any{"first": first, "cmd": cmd})
+				}
+			}
+			res.States++
+		})
+		if x.Err != "" {
+			res.Violate("C17/hang:default-json", x.Err, nil)
+		}
+	}
+}
+
+// c17Sequences: replies that render something an earlier command of the
+// connection stored (client names, output modes), in JSON mode.
+func c17Sequences(job *Job, res *Result) {
+	seqs := [][][]string{
+		{{"CLIENT", "SETNAME", "nan"}, {"CLIENT", "GETNAME"}, {"CLIENT", "LIST"}},
+		{{"CLIENT", "SETNAME", "inf"}, {"CLIENT", "LIST"}, {"CLIENT", "SETNAME", "-Inf"}, {"CLIENT", "LIST"}},
+		{{"CLIENT", "SETNAME", "1e999"}, {"CLIENT", "LIST"}, {"CLIENT", "SETNAME", "007"}, {"CLIENT", "LIST"}, {"CLIENT", "GETNAME"}},
+		{{"CLIENT", "SETNAME", `a"b\`}, {"CLIENT", "LIST"}, {"CLIENT", "GETNAME"}},
+		{{"CLIENT", "SETNAME", "true"}, {"CLIENT", "LIST"}, {"CLIENT", "SETNAME", "null"}, {"CLIENT", "LIST"}, {"CLIENT", "SETNAME", `{"x":1}`}, {"CLIENT", "LIST"}},
+	}
+	for si, seq := range seqs {
+		seq := seq
+		x := runExec(job, freezeAllBut(), func(x *Exec) {
+			in := x.Start("L", x.dir+"/L", 9001, nil)
+			c := x.Dial(in.Addr)
+			c.Do("OUTPUT", "json")
+			other := x.Dial(in.Addr)
+			other.Do("OUTPUT", "json")
+			for _, cmd := range seq {
+				for who, cl := range []*Cli{c, other} {
+					if who == 1 && cmd[1] != "LIST" {
+						continue // the second connection only lists
+					}
+					r := cl.Do(cmd...)
+					res.Evaluations++
+					res.DistinctS(fmt.Sprint("seq", si, cmd, who))
+					if r.K != '$' {
+						res.Violate("C17/json-not-one-document:client", fmt.Sprintf("%v in JSON mode is answered %s", cmd, vclip(r.String(), 120)), map[string]any{"seq": seq})
+					} else if _, p := jsonDoc(r.S); p != "" {
+						res.Violate("C17/json-malformed:client", fmt.Sprintf("%v after %v: %s: %s", cmd, seq[0], p, vclip(r.S, 200)), map[string]any{"seq": seq})
+					}
+				}
+			}
+			res.States++
+		})
+		if x.Err != "" {
+			res.Violate("C17/hang:sequences", x.Err, nil)
+		}
+	}
+}
+
+// c17Live: a live geofence opened over each transport: the opening reply and
+// every notification are one well-formed JSON document in that transport's framing.
+func c17Live(job *Job, res *Result) {
+	for _, tr := range []string{"resp-json", "native", "websocket"} {
+		tr := tr
+		x := runExec(job, freezeAllBut(), func(x *Exec) {
+			in := x.Start("L", x.dir+"/L", 9001, nil)
+			c0 := x.Dial(in.Addr)
+			c0.Do("SET", "k1", "a", "POINT", "5", "5")
+			lc := x.Dial(in.Addr)
+			line := "NEARBY k1 FENCE POINT 1 2 100000"
+			switch tr {
+			case "resp-json":
+				lc.Do("OUTPUT", "json")
+				lc.Send(respCmd(strings.Fields(line)...))
+			case "native":
+				lc.Send([]byte(fmt.Sprintf("$%d %s\r\n", len(line), line)))
+			case "websocket":
+				lc.Send([]byte("GET /" + url.PathEscape(line) + " HTTP/1.1\r\nHost: x\r\nUpgrade: websocket\r\nConnection: Upgrade\r\nSec-WebSocket-Version: 13\r\nSec-WebSocket-Key: dGhlIHNhbXBsZSBub25jZQ==\r\n\r\n"))
+			}
+			vsched.WaitUntilOr(func() bool { return lc.c.Avail() > 0 }, int64(5*stdtime.Second))
+			vsched.Quiesce()
+			opening := lc.c.Drain()
+			if tr == "websocket" {
+				if hi := bytes.Index(opening, []byte("\r\n\r\n")); hi >= 0 && bytes.HasPrefix(opening, []byte("HTTP/1.1 101 ")) {
+					opening = opening[hi+4:]
+				}
+			}
+			c0.Do("SET", "k1", "b", "POINT", "1", "2")
+			vsched.Sleep(int64(600 * stdtime.Millisecond))
+			vsched.Quiesce()
+			note := lc.c.Drain()
+			lc.c.Kill()
+			for what, raw := range map[string][]byte{"opening reply": opening, "notification": note} {
+				res.Evaluations++
+				res.DistinctS("live" + tr + what)
+				var docs []string
+				ok := len(raw) > 0
+				for rest := raw; ok && len(rest) > 0; {
+					switch tr {
+					case "resp-json":
+						v, r2, full, err := parseRESP(rest)
+						if ok = err == nil && full && v.K == '$'; ok {
+							docs, rest = append(docs, v.S), r2
+						}
+					case "native":
+						// "$<n> <n bytes>\r\n"
+						r := string(rest)
+						sp := strings.Index(r, " ")
+						n, err := strconv.Atoi(strings.TrimPrefix(r[:max(sp, 0)], "$"))
+						if ok = sp > 0 && strings.HasPrefix(r, "$") && err == nil && len(r) >= sp+1+n+2 && r[sp+1+n:sp+1+n+2] == "\r\n"; ok {
+							docs, rest = append(docs, r[sp+1:sp+1+n]), rest[sp+1+n+2:]
+						}
+					case "websocket":
+						// frame length from the header, then the strict single-frame parser
+						fl := 0
+						if len(rest) >= 2 {
+							switch n := int(rest[1] & 0x7f); {
+							case n < 126:
+								fl = 2 + n
+							case n == 126 && len(rest) >= 4:
+								fl = 4 + int(binary.BigEndian.Uint16(rest[2:]))
+							case n == 127 && len(rest) >= 10:
+								fl = 10 + int(binary.BigEndian.Uint64(rest[2:]))
+							}
+						}
+						if ok = fl > 0 && fl <= len(rest); ok {
+							var pl []byte
+							if pl, ok = c17WSFrame(rest[:fl]); ok {
+								docs, rest = append(docs, string(pl)), rest[fl:]
+							}
+						}
+					}
+				}
+				doc := strings.Join(docs, "\n")
+				if what == "opening reply" && len(docs) != 1 {
+					ok = false
+				}
+				if !ok {
+					res.Violate("C17/live-frame-malformed:"+tr, fmt.Sprintf("the %s of a live fence over %s is not one well-formed frame: %s", what, tr, vclip(string(raw), 160)), map[string]any{"transport": tr})
+				} else {
+					for _, d := range docs {
+						p := ""
+						if what == "opening reply" {
+							_, p = jsonDoc(d)
+						} else if var_ := map[string]any{}; json.Unmarshal([]byte(d), &var_) != nil || var_["command"] == nil {
+							p = "not a JSON object with a \"command\" member" // notifications are events, not replies
+						}
+						if p != "" {
+							res.Violate("C17/live-json-malformed:"+tr, fmt.Sprintf("the %s of a live fence over %s: %s: %s", what, tr, p, vclip(d, 160)), map[string]any{"transport": tr})
+						}
+					}
+				}
+				_ = doc
+			}
+			res.States++
+		})
+		if x.Err != "" {
+			res.Violate("C17/hang:live", x.Err+" ["+tr+"]", nil)
+		}
 	}
 }
 
